@@ -278,7 +278,19 @@ func verifC09Servers(maxLen int) {
 		_, isRouteErr := ferr.(*routers.RouteError)
 		verifAssert(isRouteErr, "C09 servers: a request that is not routed yields a RouteError")
 		// known finding: only the first server whose URL is a prefix of the request is tried
-		verifKnown("C09-legacy-first-matching-server-only", sv == 4)
+		// (it shows where only the second server's reading of the URL matches a template)
+		firstView, secondView := false, false
+		if sv == 4 {
+			for _, t := range templates {
+				if _, ok := verifRefMatch(t, "/a"+path); ok && ops[t][method] != nil {
+					firstView = true
+				}
+				if _, ok := verifRefMatch(t, path); ok && ops[t][method] != nil {
+					secondView = true
+				}
+			}
+		}
+		verifKnown("C09-legacy-first-matching-server-only", sv == 4 && !firstView && secondView)
 		verifAssert(len(matching) == 0, "C09 servers complete: every path obtained by filling a declared template under a declared server and method is routed")
 		verifReach("end")
 		return
